@@ -15,7 +15,7 @@ pub struct C05;
 
 // ------------------------------------------------------------- skeletons
 
-const NOPS: u64 = 9;
+const NOPS: u64 = 10;
 
 #[derive(Clone, Copy, Debug, PartialEq)]
 enum Op {
@@ -25,6 +25,8 @@ enum Op {
     OpenMatch,
     OpenClosure,
     OpenWhile,
+    /// `|a| |a| { .. }`: a closure whose body is directly another closure (both parameters spelled `a`)
+    OpenCurried,
     Close,
 }
 
@@ -38,6 +40,7 @@ fn op_of(k: u64) -> Op {
         5 => Op::OpenMatch,
         6 => Op::OpenClosure,
         7 => Op::OpenWhile,
+        9 => Op::OpenCurried,
         _ => Op::Close,
     }
 }
@@ -71,6 +74,7 @@ struct Frame {
     stmts: Vec<Stmt>,
     scope_len: usize,
     aux: Option<VarId>,
+    aux2: Option<VarId>,
     serial: usize,
 }
 
@@ -99,6 +103,7 @@ pub fn build_skeleton(ops: &[Op]) -> Skeleton {
         stmts: vec![],
         scope_len: 0,
         aux: None,
+        aux2: None,
         serial: 0,
     }];
     let mut serial = 0usize;
@@ -133,6 +138,37 @@ pub fn build_skeleton(ops: &[Op]) -> Skeleton {
                 false,
             )),
             Op::OpenClosure => {
+                // a closure that contains nothing but another closure and its call is written curried
+                // half of the time: `let g = |a: int32| |a: int32| { .. }; g(70)(71);`
+                let curried = f.serial % 2 == 0
+                    && f.stmts.len() == 2
+                    && matches!(&f.stmts[0], Stmt::Let(Pat::Var(_), None, Expr::Closure(..)))
+                    && matches!(&f.stmts[1], Stmt::Expr(Expr::Call(Callee::Val(_), _), false));
+                if curried {
+                    let mut it = f.stmts.into_iter();
+                    let (Some(Stmt::Let(_, _, inner)), Some(Stmt::Expr(Expr::Call(_, inner_args), _))) = (it.next(), it.next()) else {
+                        unreachable!()
+                    };
+                    let inner_ty = match &inner {
+                        Expr::Closure(ps, _) => Ty::Fn(ps.iter().map(|(_, t)| t.clone()).collect(), Box::new(Ty::Unit)),
+                        _ => Ty::Unit,
+                    };
+                    p.vars.push(VarInfo { spelling: format!("g{}", f.serial), ty: Ty::Fn(vec![Ty::i32()], Box::new(inner_ty)) });
+                    let g = (p.vars.len() - 1) as VarId;
+                    parent.stmts.push(Stmt::Let(Pat::Var(g), None, Expr::Closure(vec![(f.aux.unwrap(), Ty::i32())], Box::new(inner))));
+                    parent.stmts.push(Stmt::Expr(
+                        Expr::Call(
+                            Callee::Val(Box::new(Expr::Call(
+                                Callee::Val(Box::new(Expr::Var(g))),
+                                vec![Expr::Int(IK::I32, 70 + f.serial as i128, false)],
+                            ))),
+                            inner_args,
+                        ),
+                        false,
+                    ));
+                    p.labels.insert("closure:curried".into());
+                    return;
+                }
                 p.vars.push(VarInfo {
                     spelling: format!("g{}", f.serial),
                     ty: Ty::Fn(vec![Ty::i32()], Box::new(Ty::Unit)),
@@ -153,6 +189,24 @@ pub fn build_skeleton(ops: &[Op]) -> Skeleton {
                     ),
                     false,
                 ));
+            }
+            Op::OpenCurried => {
+                let inner_ty = Ty::Fn(vec![Ty::i32()], Box::new(Ty::Unit));
+                p.vars.push(VarInfo { spelling: format!("g{}", f.serial), ty: Ty::Fn(vec![Ty::i32()], Box::new(inner_ty)) });
+                let g = (p.vars.len() - 1) as VarId;
+                let inner = Expr::Closure(vec![(f.aux2.unwrap(), Ty::i32())], Box::new(Expr::Block(f.stmts, Some(Box::new(Expr::Unit)))));
+                parent.stmts.push(Stmt::Let(Pat::Var(g), None, Expr::Closure(vec![(f.aux.unwrap(), Ty::i32())], Box::new(inner))));
+                parent.stmts.push(Stmt::Expr(
+                    Expr::Call(
+                        Callee::Val(Box::new(Expr::Call(
+                            Callee::Val(Box::new(Expr::Var(g))),
+                            vec![Expr::Int(IK::I32, 70 + f.serial as i128, false)],
+                        ))),
+                        vec![Expr::Int(IK::I32, 170 + f.serial as i128, false)],
+                    ),
+                    false,
+                ));
+                p.labels.insert("closure:curried".into());
             }
             Op::OpenWhile => {
                 let i = f.aux.unwrap();
@@ -224,7 +278,7 @@ pub fn build_skeleton(ops: &[Op]) -> Skeleton {
             }
             open => {
                 let aux = match open {
-                    Op::OpenMatch | Op::OpenClosure => {
+                    Op::OpenMatch | Op::OpenClosure | Op::OpenCurried => {
                         let v = new_var(&mut p, NAMES[0].to_string(), Ty::i32());
                         Some(v)
                     }
@@ -239,18 +293,28 @@ pub fn build_skeleton(ops: &[Op]) -> Skeleton {
                     Op::OpenIf => "if{",
                     Op::OpenMatch => "match a=>{",
                     Op::OpenClosure => "|a|{",
+                    Op::OpenCurried => "|a||a|{",
                     _ => "while{",
                 });
                 let scope_len = scope.len();
-                if let (Op::OpenMatch | Op::OpenClosure, Some(v)) = (open, aux) {
+                if let (Op::OpenMatch | Op::OpenClosure | Op::OpenCurried, Some(v)) = (open, aux) {
                     scope.push((0, v));
                     recent[0] = Some(v);
                 }
+                let aux2 = if open == Op::OpenCurried {
+                    let v = new_var(&mut p, NAMES[0].to_string(), Ty::i32());
+                    scope.push((0, v));
+                    recent[0] = Some(v);
+                    Some(v)
+                } else {
+                    None
+                };
                 frames.push(Frame {
                     kind: open,
                     stmts: vec![],
                     scope_len,
                     aux,
+                    aux2,
                     serial,
                 });
             }
@@ -409,6 +473,9 @@ pub fn judge_program(
     let key = fnv_str(text);
     let res = goml::compile_single(ctx, text);
     let mut labels = vec![format!("stage:{}", res.stage())];
+    if p.map_or(false, |p| p.labels.contains("closure:curried")) {
+        labels.push("closure:curried".into());
+    }
     if negative {
         labels.push("negative".into());
         return match &res {
@@ -519,7 +586,7 @@ impl Check for C05 {
                     (0..n)
                         .map(|_| {
                             // binds and uses dominate; scopes open more often than they close
-                            let k = [0u64, 1, 0, 1, 2, 3, 0, 1, 4, 5, 6, 7, 2, 3, 8, 0][d.below(16)];
+                            let k = [0u64, 1, 0, 1, 2, 3, 0, 1, 4, 5, 6, 7, 2, 3, 8, 9][d.below(16)];
                             op_of(k)
                         })
                         .collect()
@@ -562,7 +629,7 @@ impl Check for C05 {
         )
     }
     fn rule(&self) -> String {
-        "skeletons: EVERY sequence of <= L operations (L=5 quick, 6 thorough) from {let a, let b, use a, use b, open if-block, open match arm binding a, open closure with parameter a, open while body, close} turned into a program (each binder holds a distinct value, each use prints); long-skeletons: random sequences of 6..15 operations; wide-skeletons: random sequences of 20..60 operations, mostly lets and uses (many bindings visible at once); programs: type-directed random programs drawn with a 3-name pool so nearly every binder shadows. Oracle: (1) a well-scoped program is not rejected with a scoping diagnostic, a use with no binder in scope is rejected; (2) in the compiler's HIR every use of a generated variable resolves to NameRef::Local of exactly the binder the generator intended (binders located by their text range), distinct binders have distinct ids; (3) the compiled program prints the value of the intended binder at every use (reference interpreter vs Go-subset interpreter). Non-trivial = some use resolves to a binder that is not the textually most recent binder of that name (a leak would change the answer), or (programs) the program shadows a name (top-level functions may be spelled like the locals a/b/c, so that a local closure shadows a function in call position); distinct by hash of the text.".into()
+        "skeletons: EVERY sequence of <= L operations (L=5 quick, 6 thorough) from {let a, let b, use a, use b, open if-block, open match arm binding a, open closure with parameter a, open while body, open curried closure |a| |a| { .. }, close} turned into a program (each binder holds a distinct value, each use prints); long-skeletons: random sequences of 6..15 operations; wide-skeletons: random sequences of 20..60 operations, mostly lets and uses (many bindings visible at once); programs: type-directed random programs drawn with a 3-name pool so nearly every binder shadows. Oracle: (1) a well-scoped program is not rejected with a scoping diagnostic, a use with no binder in scope is rejected; (2) in the compiler's HIR every use of a generated variable resolves to NameRef::Local of exactly the binder the generator intended (binders located by their text range), distinct binders have distinct ids; (3) the compiled program prints the value of the intended binder at every use (reference interpreter vs Go-subset interpreter). Non-trivial = some use resolves to a binder that is not the textually most recent binder of that name (a leak would change the answer), or (programs) the program shadows a name (top-level functions may be spelled like the locals a/b/c, so that a local closure shadows a function in call position); distinct by hash of the text.".into()
     }
     fn assumptions(&self) -> Vec<String> {
         vec![
